@@ -43,8 +43,8 @@ def cases(rng, tier):
         n, sh_ = rng.randint(0, 9), rng.chance(.6)
         out.append({'kind': 'sig', 'api': 'split', 'args': [n, sh_], 'lines': [f'rng split {n} {int(sh_)}']})
     nprog = 6 if tier == 'quick' else 40
-    for _ in range(nprog):
-        out.append({'kind': 'prog', 'seed': rng.randrange(2 ** 31), 'variant': rng.randrange(4), 'hashseeds': 3 if tier == 'quick' else 12, 'lines': ['rng dropout 1 0']})
+    for k in range(nprog):       # boundary seeds first
+        out.append({'kind': 'prog', 'seed': [0, 1, 2 ** 32 - 1][k] if k < 3 else rng.randrange(2 ** 31), 'variant': rng.randrange(4), 'hashseeds': 3 if tier == 'quick' else 12, 'lines': ['rng dropout 1 0']})
     for c in out:
         c['desc'] = {k: v for k, v in c.items() if k != 'lines'}
     return out
